@@ -511,7 +511,7 @@ func RunC16(tier string) int {
 	}
 	phases := []phase{{"full", 3}}
 	if tier == "thorough" {
-		phases = []phase{{"full", 4}, {"core", 5}}
+		phases = []phase{{"full", 3}, {"core", 4}}
 	}
 	var units []interface{}
 	for _, ph := range phases {
